@@ -1021,6 +1021,40 @@ def fam_random(run, sch):
         set_tz(old)
 
 
+def fam_abort(run, sch):
+    """runs that end with a non-zero exit code BECAUSE writing fails half way (a name or an option value that the XML
+    library rejects): whatever is left on disk under a manifest / chain / collection name must still be schema-valid"""
+    bad_name = "a\x01b.txt"
+    for cid, tree, prior, what in [
+        ("abort/name/second-generation", "deep", True, "name"),
+        ("abort/name/first-generation", "deep", False, "name"),
+        ("abort/name/nested-parent", "deep", True, "nested"),
+        ("abort/comment/create", "flat", True, "comment"),
+        ("abort/comment/flatten", "flat", True, "flatten"),
+        ("abort/location/sf", "deep", True, "sf"),
+    ]:
+        if not run.want(cid):
+            continue
+        w = World(run, sch, cid, tree)
+        if what == "nested":
+            w.create("A", fmts=["md5"])
+        if prior:
+            w.create("", fmts=["md5", "c4"])
+        if what in ("name", "nested"):
+            w.write(("A/" if what == "nested" else "B/") + bad_name, "x")
+            w.create("", fmts=["md5"])
+        elif what == "comment":
+            w.create("", fmts=["md5"], opts=["--comment", "bell\x07"])
+        elif what == "flatten":
+            w.flatten(opts=["--comment", "bell\x07"])
+        elif what == "sf":
+            w.sf(["A/a.txt"], fmts=["md5"], opts=["--location", "esc\x1b"])
+        # and the history must stay usable and valid afterwards
+        w.create("", fmts=["md5"], opts=["-i", "*" + "\x01" + "*"] if what in ("name", "nested") else [])
+        w.flatten(dest="out2")
+        w.done()
+
+
 def fam_probe(run, sch):
     """NOT part of the default enumeration (run with --case probe/...): environments outside the statement's quantifier
     in which the current tree writes an invalid xs:dateTime - a UTC offset that is not a whole number of minutes"""
@@ -1058,7 +1092,7 @@ def main():
         "characters XML cannot carry (the commands abort before writing), UTC offsets with a seconds part (--case probe/...)",
     )
     sch = Schemas()
-    fams = [fam_fresh, fam_rootname, fam_creator, fam_sf, fam_history, fam_tz, fam_crash, fam_random, fam_probe]
+    fams = [fam_fresh, fam_rootname, fam_creator, fam_sf, fam_history, fam_tz, fam_crash, fam_random, fam_abort, fam_probe]
     old_tz = os.environ.get("TZ")
     for fam in fams:
         if run.only and not run.only.startswith(fam.__name__[4:] + "/"):
